@@ -1819,7 +1819,8 @@ class RecordTensor(ShapedTensor):
             start = _unwind_ptr(ptr, offset, recordsz)
             end = _unwind_ptr(ptr, offset - length, recordsz)
 
-            if start > end:
+            # a range spanning the whole record wraps onto its own start (start == end)
+            if start > end or (start == end and length > 0):
                 return ein.rearrange(
                     torch.cat((data[start:, ...], data[:end, ...]), 0), "t ... -> ... t"
                 )
